@@ -33,6 +33,14 @@ class _P(Policy):
 
 class _PW(_P):
     loop_mode = "widen"
+    root = None
+
+    def inline(self, fn, args, interp, path):
+        # a private helper of the evaluator that works on the occurrence list (takes a `&mut [usize]`-like argument)
+        cb = interp.callee_body(fn)
+        if cb is None or not cb["path"].startswith("expression::flat::detail::") or cb["path"] == self.root or cb.get("public"):
+            return False
+        return any(re.match(r"^&mut (\[usize\]|smallvec::SmallVec<\[usize;|std::vec::Vec<usize)", cb["locals"][i]["ty"]) for i in range(1, cb["arg_count"] + 1))
 
 
 class Step:
@@ -91,7 +99,9 @@ def closure_form(chk, fb, b):
 
 def loop_form(chk, fb, b):
     """for node in nodes { ..; numbers.push(value) }: the step is the general trip of the loop over the nodes."""
-    allp = Interp(fb, _PW()).run(b, [Sym("vars"), Sym("nodes"), Sym("ops"), Sym("prio")])
+    pol = _PW()
+    pol.root = b["path"]
+    allp = Interp(fb, pol).run(b, [Sym("vars"), Sym("nodes"), Sym("ops"), Sym("prio")])
     bad = [p for p in allp if p.status == "unrecognised"]
     if bad:
         chk.unrecognised("R15.1", "shape", "consuming evaluator: %s" % bad[0].note, loc(b["span"]))
@@ -101,29 +111,34 @@ def loop_form(chk, fb, b):
         for e in p.events:
             if e[0] == "closure":
                 cl.setdefault(e[1].path, e[1])
-    # the loop over the nodes: its iterator local starts as an in-order iteration over `nodes`
-    found = None
+    # the loops over the nodes: iterator local starts as an in-order iteration over `nodes`; the evaluating one pushes
+    # `unary(..)` values (another one may build the occurrence list)
+    cands = []
     for p in allp:
-        ts = [t for t in loops.trips(p, b["path"]) if t.fid in (0, None) or True]
-        for t in ts:
+        for t in loops.trips(p, b["path"]):
             if t.general:
                 continue
             for k, v in t.pre.items():
-                if loops.seq_parts(v) == [("src", "nodes", "fwd")] and "enumerate" not in show(v):
-                    found = (t.header, k, t)
-                    break
-            if found:
-                break
-        if found:
-            break
+                if loops.seq_parts(v) == [("src", "nodes", "fwd")] and "enumerate" not in show(v) and not any(c[0] == t.header for c in cands):
+                    cands.append((t.header, k, t))
+    found = None
+    for c in cands:
+        for p in allp:
+            for t in loops.trips(p, b["path"]):
+                if t.header == c[0] and t.general and t.post is not None and any(e[0] == "call" and e[1].rsplit("::", 1)[-1] == "push" and len(e[2]) == 2 and "UnaryOp::<T>::apply(" in show(e[2][1]) for e in t.events):
+                    found = found or c
+    if not found and cands:
+        found = cands[0]
     if not found:
         return None
     H, itl, first = found
     gen = []
+    genp = {}
     for p in allp:
         for t in loops.trips(p, b["path"]):
             if t.header == H and t.general and t.post is not None:
                 gen.append(t)
+                genp[id(t)] = p
     if not gen:
         return None
     unk = {k: show(v) for k, v in gen[0].pre.items() if isinstance(v, Unknown)}
@@ -138,16 +153,35 @@ def loop_form(chk, fb, b):
         names[s] = "vars" if iv is not None and show(iv) == "vars" else "L%d" % k
     subs = [(".0(as:Var(.kind(%s)))" % item, "idx"), (".0(as:Num(.kind(%s)))" % item, "n"), (".unary_op(%s)" % item, "u"), (item, "node")]
 
+    rootname = b["path"].split("::")[-1]
+    other_unknowns = {}
+
     def norm(s):
         for a, c in subs:
             s = s.replace(a, c)
         for a, c in sorted(names.items(), key=lambda x: -len(x[0])):
             s = s.replace(a, c)
+        # state widened by an EARLIER loop of the function (a list built before the node loop and only changed through a
+        # reference inside it): named by its local as well
+        for m_ in re.finditer(r"⊤\(loop:%s:bb(\d+):_(\d+)\)" % re.escape(rootname), s):
+            other_unknowns["L%s" % m_.group(2)] = "loop:%s:bb%s:_%s" % (rootname, m_.group(1), m_.group(2))
+        s = re.sub(r"⊤\(loop:%s:bb\d+:_(\d+)\)" % re.escape(rootname), r"L\1", s)
         return s
     steps, seen = [], set()
     occ = None
+    counted = False
     for t in gen:
         decs = [(norm(show(d[1])), d[2], d[1]) for d in t.decisions]
+        extra_marks = {}
+        # an inner counting loop (the scan of the occurrence list written as a loop, possibly in an inlined helper)
+        inner = _inner_count(allp, genp[id(t)], t, norm)
+        if inner is False:
+            chk.unrecognised("R15.1", "shape", "loop over the nodes: an inner loop that is not a count of the entries equal to the node's index", loc(b["span"]))
+            return False
+        if inner is not None:
+            counted = True
+            decs = inner["decs"]
+            extra_marks = inner["subst"]
         kind = next((l for s, l, _ in decs if s == "discr(.kind(node))"), None)
         if kind not in ("Var", "Num"):
             continue
@@ -157,7 +191,18 @@ def loop_form(chk, fb, b):
             return False
         value = norm(show(pushes[0][2][1]))
         cloned = any(e[0] == "call" and e[1] == "std::clone::Clone::clone" and norm(show(e[2][0])) == "index(vars, idx)" for e in t.events)
-        marks = [(norm(show(e[1])), norm(show(e[3]))) for e in t.events if e[0] == "write_opaque"]
+        marks = []
+        for e in t.events:
+            if e[0] != "write_opaque":
+                continue
+            tgt_ = norm(show(e[1]))
+            # `occ[i] = MAX` through a reference: the target is the indexed element
+            ix_ = [x for x in e[2] if x and x[0] == "i"]
+            if len(ix_) == 1 and len(e) > 4 and ix_[0][1] in e[4]:
+                tgt_ = "std::ops::IndexMut::index_mut(%s, %s)" % (tgt_, norm(show(e[4][ix_[0][1]])))
+            marks.append((tgt_, norm(show(e[3]))))
+        for a_, c_ in extra_marks.items():
+            marks = [(m0.replace(a_, c_), m1) for m0, m1 in marks]
         cls = [c for d in t.decisions for c in _closures(d[1])]
         sig = (kind, tuple((s, str(l)) for s, l, _ in decs), value, cloned, tuple(marks))
         if sig in seen:
@@ -176,8 +221,143 @@ def loop_form(chk, fb, b):
         st.decs = [(s.replace(occ, "OCC"), l, t) for s, l, t in st.decs]
         st.marks = [(a.replace(occ, "OCC"), c) for a, c in st.marks]
         st.value = st.value.replace(occ, "OCC")
-    capmap = {subs[0][0]: "idx"}
-    return steps, init.get(k), cl, {"norm": norm}
+    occ_init = init.get(k)
+    if occ_init is None and occ in other_unknowns:
+        occ_init = Unknown(other_unknowns[occ])
+    occ_ok = _occ_from_loop(allp, b, occ_init) if isinstance(occ_init, Unknown) else None
+    return steps, occ_init, cl, {"norm": norm, "pred_checked": counted, "occ_loop": occ_ok}
+
+
+def _inner_count(allp, p, t, norm):
+    """The scan of the occurrence list written as a counting loop inside the node step:
+         for (i, v) in occ.iter().enumerate() { if *v == idx { n += 1; found = i } }
+    Returns None (no inner loop), False (an inner loop of another kind) or
+    {"decs": the step's decisions without the inner loop's own, with n spelled as count(filter(..)), "subst": {found: position term}}."""
+    lo, hi = t.index, t.index + 1 + len(t.items)
+    inner = [u for u in loops.all_trips(p) if (u.body_path, u.header) != (t.body_path, t.header) and lo < u.index < hi]
+    if not inner:
+        return None
+    keys = {(u.body_path, u.header) for u in inner}
+    if len(keys) != 1:
+        return False
+    bp, H2 = next(iter(keys))
+
+    def next_dec(u):
+        for j, (k, x) in enumerate(u.items):
+            if k == "d" and isinstance(x[1], App) and x[1].fn == "discr" and isinstance(x[1].args[0], App) and x[1].args[0].fn == "std::iter::Iterator::next":
+                return j, x
+        return None
+    n_key = f_key = None
+    src = None
+    pred_ok = True
+    FIRSTIDX = r"\.0\(as:Var\(\.kind\(\.0\(as:Some\(std::iter::Iterator::next\((?:std::iter::IntoIterator::into_iter|core::slice::<impl \[T\]>::iter)\(nodes\)\)\)\)\)\)\)"
+    for q in allp:
+        for u in loops.all_trips(q):
+            if (u.body_path, u.header) != (bp, H2):
+                continue
+            nd = next_dec(u)
+            if nd is None:
+                if [1 for k, x in u.items if k == "d"]:
+                    return False
+                continue
+            j, x = nd
+            X = x[1].args[0].args[0]
+            if not u.general:
+                if not isinstance(X, Unknown) and src is None:
+                    src = X
+                continue
+            if x[2] != "Some" or u.post is None:
+                continue
+            item = "(?:\\.1\\()?\\.0\\(as:Some\\(std::iter::Iterator::next\\(%s\\)\\)\\)\\)?" % re.escape(norm(show(X)))
+            ds = [y for k, y in u.items[j + 1:] if k == "d"]
+            if len(ds) != 1:
+                return False
+            cs_ = re.sub(FIRSTIDX, "idx", norm(show(ds[0][1])))
+            if not (re.match(r"^(?:binop:Eq|std::cmp::PartialEq::eq)\(%s, idx\)$" % item, cs_) or re.match(r"^(?:binop:Eq|std::cmp::PartialEq::eq)\(idx, %s\)$" % item, cs_)):
+                pred_ok = False
+            changed = {L: v for L, v in u.pre.items() if isinstance(v, Unknown) and L in u.post and u.post[L].key() != v.key()}
+            incs = [L for L, v in changed.items() if show(u.post[L]) in ("binop:Add(%s, 1_usize)" % show(v), "binop:Add(%s, usize:1)" % show(v))]
+            poss = [L for L, v in changed.items() if re.match(r"^\.0\(\.0\(as:Some\(std::iter::Iterator::next\(", show(u.post[L]))]
+            if ds[0][2] is True:
+                if len(incs) != 1:
+                    return False
+                n_key = show(u.pre[incs[0]])
+                wtxt = " ".join(show(e[1]) + " " + " ".join(show(v_) for v_ in (e[4].values() if len(e) > 4 else [])) for e in t.events if e[0] == "write_opaque")
+                for L in poss:
+                    if show(u.pre[L]) in wtxt:
+                        f_key = show(u.pre[L])
+            else:
+                if incs:
+                    return False
+    if src is None or n_key is None or not pred_ok:
+        return False
+    base_ = src
+    while isinstance(base_, App) and len(base_.args) == 1 and base_.fn in (
+            "std::iter::IntoIterator::into_iter", "std::iter::Iterator::enumerate", "core::slice::<impl [T]>::iter", "smallvec::SmallVec::<A>::iter", "deref", "std::ops::Deref::deref"):
+        base_ = base_.args[0]
+    if not isinstance(base_, (Unknown, Sym)):
+        return False
+    occ_term = norm(show(base_))
+    enumerated = "Iterator::enumerate(" in show(src)
+    count_s = "std::iter::Iterator::count(std::iter::Iterator::filter(%score::slice::<impl [T]>::iter(%s)%s, closure<{closure#0}>))" % (
+        "std::iter::Iterator::enumerate(" if enumerated else "", occ_term, ")" if enumerated else "")
+    pos_s = "std::iter::Iterator::rposition(core::slice::<impl [T]>::iter(%s), closure<{closure#0}>)" % occ_term
+    first_i = min(u.index for u in inner)
+    last = max(inner, key=lambda u: u.index)
+    nd = next_dec(last)
+    if nd is None or nd[1][2] != "None":
+        return False        # the step is judged after the whole list has been scanned
+    exit_global = last.index + 1 + nd[0]
+    exited_at_first_arrival = not last.general and len(inner) == 1
+    decs = []
+    for j, (k, x) in enumerate(t.items):
+        g = t.index + 1 + j
+        if k != "d" or (first_i <= g <= exit_global):
+            continue
+        decs.append((norm(show(x[1])).replace(norm(n_key), count_s), x[2], None))
+    if exited_at_first_arrival:
+        decs.append(("discr(%s)" % pos_s, "None", None))       # nothing to scan: no occurrence left
+    subst = {}
+    if f_key is not None:
+        subst[norm(f_key)] = ".0(as:Some(%s))" % pos_s
+    return {"decs": decs, "subst": subst}
+
+
+def _occ_from_loop(allp, b, unk):
+    """The occurrence list built by `for node in nodes { if let Var(i) = node.kind { list.push(i) } }`: every completed trip of
+    that loop pushes the node's variable index iff the node is a variable; the list starts empty; the nodes are visited in order."""
+    lu = loops.loop_unknown(unk)
+    if lu is None:
+        return False
+    fn, L, H = lu
+    ok_var = ok_other = False
+    for p in allp:
+        for t in loops.trips(p, b["path"]):
+            if t.header != H:
+                continue
+            if not t.general:
+                init = t.pre.get(L)
+                # (only the first arrival shows the initial value; later arrivals already carry the widened state)
+                if init is not None and "⊤(loop:" not in show(init) and loops.seq_parts(init) != []:
+                    return False
+                continue
+            if t.post is None or L not in t.pre or L not in t.post:
+                continue
+            it = [k for k, v in t.pre.items() if isinstance(v, Unknown) and any(show(d[1]) == "discr(std::iter::Iterator::next(%s))" % show(v) for d in t.decisions)]
+            if len(it) != 1:
+                return False
+            item = ".0(as:Some(std::iter::Iterator::next(%s)))" % show(t.pre[it[0]])
+            kind = next((d[2] for d in t.decisions if show(d[1]) == "discr(.kind(%s))" % item), None)
+            post = show(t.post[L])
+            if kind == "Var":
+                if not re.match(r"^mut:.*::push\(%s, \.0\(as:Var\(\.kind\(%s\)\)\)\)$" % (re.escape(show(t.pre[L])), re.escape(item)), post):
+                    return False
+                ok_var = True
+            else:
+                if post != show(t.pre[L]):
+                    return False
+                ok_other = True
+    return ok_var and ok_other
 
 
 # ---- predicates ----------------------------------------------------------------------------------------
@@ -315,7 +495,13 @@ def run(ctx):
         chk.unrecognised("R15.1", "shape", "per-node step: expected a clone path and a take path, got %d / %d" % (n_clone, n_take), loc(b["span"]))
         return
     # scan predicates: entry == idx; the one the mark relies on records / returns the matched position
-    if not count_closures:
+    if not count_closures and extra.get("pred_checked"):
+        # the scan is a counting loop: its predicate (entry == node's index) and its accumulators were checked with the loop
+        if mark_via in ("position", None):
+            chk.ok("R15.2", "scan (a counting loop) matches entries equal to the node's index and remembers the last match", "", loc(b["span"]))
+        else:
+            chk.violation("R15.2", "scan-predicate", "the marked position does not come from the counting loop", loc(b["span"]))
+    elif not count_closures:
         chk.unrecognised("R15.2", "scan", "scan closure not found", loc(b["span"]))
     else:
         allc = {c.path: c for c in count_closures + pos_closures}
@@ -350,7 +536,9 @@ def run(ctx):
         core = m.group(2)
     node = Variant(NODE, None, {"kind": Variant(KIND, "Var", {"0": Sym("idx")}), "unary_op": Sym("u")})
     lit = Variant(NODE, None, {"kind": Variant(KIND, "Num", {"0": Sym("n")}), "unary_op": Sym("u")})
-    if re.match(r"^std::iter::Iterator::(flat_map|filter_map)\((std::iter::Iterator::rev\()?core::slice::<impl \[T\]>::iter\(nodes\)\)?, closure<\{closure#\d+\}>\)$", core):
+    if extra.get("occ_loop"):
+        chk.ok("R15.3", "occurrence list = the variable indices of all nodes (built by a loop over the nodes)", "", loc(b["span"]))
+    elif re.match(r"^std::iter::Iterator::(flat_map|filter_map)\((std::iter::Iterator::rev\()?core::slice::<impl \[T\]>::iter\(nodes\)\)?, closure<\{closure#\d+\}>\)$", core):
         oc = [v for v in cl.values() if not v.caps]
         okc = False
         for v in oc:
